@@ -447,3 +447,21 @@ Arguments NotServing {Resp}.
 Arguments StorePanic {Resp}.
 Arguments EReq {Req}.
 Arguments EReload {Req}.
+
+(* ---------------------------------------------------------------- the metrics server (pkg/metrics)
+   NewServer starts a goroutine that runs ListenAndServe: unless the server is shutting down already it binds the port
+   and registers the listener with the server (one step: net/http's few instructions between the two are not the
+   component's).  Stop is Shutdown: it marks the server as shutting down, closes the REGISTERED listeners and delivers.
+   eager = false is the code; eager = true binds in NewServer and leaves only the registration to the goroutine (a
+   goroutine that finds the server shut down closes the listener it was given). *)
+Record mstate := { m_shut : bool; m_bound : bool; m_reg : bool; m_done : bool }.
+Inductive mev := MListen | MStop.
+Definition minit (eager : bool) : mstate := {| m_shut := false; m_bound := eager; m_reg := false; m_done := false |}.
+Definition mstep (s : mstate) (e : mev) : mstate :=
+  match e with
+  | MListen =>
+    if m_shut s then {| m_shut := true; m_bound := (if m_reg s then m_bound s else false); m_reg := m_reg s; m_done := m_done s |}
+    else {| m_shut := false; m_bound := true; m_reg := true; m_done := m_done s |}
+  | MStop => {| m_shut := true; m_bound := (if m_reg s then false else m_bound s); m_reg := m_reg s; m_done := true |}
+  end.
+Definition mrun (eager : bool) (sched : list mev) : mstate := fold_left mstep sched (minit eager).
